@@ -188,6 +188,8 @@ def queries(h, kind='hyp.Point', n=2, query='coords:poincare'):
         tb, ta = tv.proj_data.copy(), tv.aux_data.copy()
         tv.normalized()
         tv.angle(hyperbolic.TangentVector(p2, w + p2.proj_data))
+        h.stub('kernel', mode='flag')
+        tv.origin_to()
         h.proj_eq("tangent base point unchanged", tv.proj_data[0], tb[0])
         h.eq("tangent vector data unchanged", tv.proj_data[1], tb[1])
         # normalized() rescales the stored projected vector in place; the property speaks of the represented geometry:
